@@ -437,3 +437,177 @@ Proof.
       * destruct Sd3 as [_ [_ [_ S3]]]. destruct Sd2 as [_ [_ [_ S2]]]. destruct Sd as [_ [_ [_ S1]]].
         rewrite S3, S2, Es1, S1, Esec. auto.
 Qed.
+
+(* ---------------------------------------------------------------- the remaining operations *)
+
+Lemma LInv_fields d y A L w' regs' : LInv d y A L -> w_buf w' = w_buf (d_w d) ->
+  w_cursor w' = w_cursor (d_w d) -> w_rr_start w' = w_rr_start (d_w d) -> FLay w' y A ->
+  LInv (mkD w' regs') y A L.
+Proof. intros [HP _] E1 E2 E3 HF. split; auto. simpl. rewrite E1, E2, E3. exact HP. Qed.
+
+Lemma hdr_write_ok2 d g y A L pos data : AInv d g L -> LInv d y A L -> pos + length data <= header_size ->
+  exists w', w_write (d_w d) pos data = Ok w' /\ AInv (mkD w' (d_regs d)) g L /\
+             LInv (mkD w' (d_regs d)) y A L /\ w_edns w' = w_edns (d_w d) /\ w_tsig w' = w_tsig (d_w d).
+Proof.
+  intros Hi HL Hp.
+  destruct (hdr_write_ok d g L pos data Hi Hp) as [w' [E [H [He [Ht [Hc R]]]]]].
+  exists w'. split; auto. split; auto. split; auto.
+  apply w_write_inv in E as [b' [Hb ->]].
+  eapply (LInv_move d g); eauto; try reflexivity.
+  - apply H.
+  - destruct HL as [_ HF]. eapply FLay_fields; eauto.
+Qed.
+
+Lemma hdr_modify_ok2 d g y A L i f : AInv d g L -> LInv d y A L -> N.to_nat i < header_size ->
+  exists w', w_modify (d_w d) i f = Ok w' /\ AInv (mkD w' (d_regs d)) g L /\
+             LInv (mkD w' (d_regs d)) y A L /\ w_edns w' = w_edns (d_w d) /\ w_tsig w' = w_tsig (d_w d).
+Proof.
+  intros Hi HL Hp. pose proof (a_n _ _ _ Hi) as Hn. unfold w_modify.
+  destruct (nth_error (w_buf (d_w d)) (N.to_nat i)) as [x|] eqn:E.
+  - apply hdr_write_ok2; auto. simpl. lia.
+  - apply nth_error_None in E. destruct Hn. lia.
+Qed.
+
+Lemma LInv_clear d g y A L : AInv d g L -> LInv d y A L ->
+  LInv (mkD (clear_rrs (d_w d)) (d_regs d)) (mkLay (y_qs y) [])
+       (mkAM (am_mode A) (am_qs A) [] [] []) (Lq L (w_rr_start (d_w d))).
+Proof.
+  intros Hi [[P1 P2 P3] HF]. pose proof (a_n _ _ _ Hi) as Hn. destruct Hn.
+  split; simpl.
+  - constructor; simpl.
+    + apply qs_restrict; auto.
+    + reflexivity.
+    + intros s. unfold Lq. rewrite P3, !in_app_iff. simpl. split.
+      * intros [[K|K] Hlt]; auto.
+        apply (rrs_starts_bound _ _ _ _ _ _ P2) in K; lia.
+      * intros [K|[]]. split; auto.
+        apply (qs_starts_bound _ _ _ _ _ _ P1) in K; lia.
+  - destruct HF as [Fq Fr Fm Cq Ca Cn Cr Fs]. constructor; simpl; auto.
+    destruct (w_edns (d_w d)); destruct (w_tsig (d_w d)); reflexivity.
+Qed.
+
+Lemma FLay_clear_upper w y A : FLay w y A -> FLay (clear_upper w) y A.
+Proof.
+  intros HF. unfold clear_upper. destruct (w_edns w) eqn:E; auto.
+  eapply FLay_fields; eauto. simpl. rewrite E. reflexivity.
+Qed.
+
+Theorem step2_all d g y A L o : AInv d g L -> LInv d y A L -> op_wf o -> op_contract d g o ->
+  step_ok2 d g y A o.
+Proof.
+  intros Hi HL Hwf Hc. pose proof (a_n _ _ _ Hi) as Hn. pose proof HL as [HP HF].
+  destruct o; simpl in Hwf, Hc;
+    try (eapply step2_question; eauto; fail);
+    try (destruct Hwf; eapply step2_rr; eauto; fail);
+    try (destruct Hwf; eapply step2_rrset; eauto; fail);
+    unfold step_ok2; cbn [step].
+  - destruct (hdr_write_ok2 d g y A L (N.to_nat ID_START) (be16 v) Hi HL ltac:(cbv; lia)) as [w' [E [H [H' _]]]].
+    unfold set_id. rewrite E. simpl. eauto.
+  - destruct (hdr_modify_ok2 d g y A L QR_BYTE (set_bit QR_MASK b) Hi HL ltac:(cbv; lia)) as [w' [E [H [H' _]]]].
+    unfold set_qr, w_set_flag. rewrite E. simpl. eauto.
+  - destruct (hdr_modify_ok2 d g y A L OPCODE_BYTE (fun x => N.lor (N.land x (255 - OPCODE_MASK)) ((v * 2 ^ OPCODE_SHIFT) mod 256)) Hi HL ltac:(cbv; lia)) as [w' [E [H [H' _]]]].
+    unfold set_opcode. rewrite E. simpl. eauto.
+  - destruct (hdr_modify_ok2 d g y A L AA_BYTE (set_bit AA_MASK b) Hi HL ltac:(cbv; lia)) as [w' [E [H [H' _]]]].
+    unfold set_aa, w_set_flag. rewrite E. simpl. eauto.
+  - destruct (hdr_modify_ok2 d g y A L TC_BYTE (set_bit TC_MASK b) Hi HL ltac:(cbv; lia)) as [w' [E [H [H' _]]]].
+    unfold set_tc, w_set_flag. rewrite E. simpl. eauto.
+  - destruct (hdr_modify_ok2 d g y A L RD_BYTE (set_bit RD_MASK b) Hi HL ltac:(cbv; lia)) as [w' [E [H [H' _]]]].
+    unfold set_rd, w_set_flag. rewrite E. simpl. eauto.
+  - destruct (hdr_modify_ok2 d g y A L RA_BYTE (set_bit RA_MASK b) Hi HL ltac:(cbv; lia)) as [w' [E [H [H' _]]]].
+    unfold set_ra, w_set_flag. rewrite E. simpl. eauto.
+  - (* set_rcode *)
+    destruct (hdr_modify_ok2 d g y A L RCODE_BYTE (fun x => N.lor (N.land x (255 - RCODE_MASK)) v) Hi HL ltac:(cbv; lia))
+      as [w' [E [H [H' [He Ht]]]]].
+    unfold set_rcode. rewrite E. simpl. exists L, y. split.
+    + apply (AInv_fields (mkD w' (d_regs d)) g L (clear_upper w')); auto;
+        try (unfold clear_upper; destruct (w_edns w'); reflexivity).
+      * apply inv_clear_upper. apply H.
+      * intros t Et. apply (a_ts _ _ _ H). simpl. unfold clear_upper in Et. destruct (w_edns w'); exact Et.
+    + apply (LInv_fields (mkD w' (d_regs d)) y A L); auto;
+        try (unfold clear_upper; destruct (w_edns w'); reflexivity).
+      destruct H' as [_ HF']. apply FLay_clear_upper. exact HF'.
+  - (* set_extended_rcode *)
+    unfold set_extended_rcode. destruct (w_edns (d_w d)) as [e|] eqn:Ee;
+      [|simpl; exists L, y; split; [apply AInv_eta; auto|exact HL]].
+    destruct (4095 <? v)%N; [simpl; exists L, y; split; [apply AInv_eta; auto|exact HL]|].
+    destruct (hdr_modify_ok2 d g y A L RCODE_BYTE
+                (fun x => N.lor (N.land x (255 - RCODE_MASK)) (N.land (v mod 256) RCODE_MASK)) Hi HL ltac:(cbv; lia))
+      as [w' [E [H [H' [He Ht]]]]].
+    rewrite E. simpl. exists L, y. split.
+    + apply (AInv_fields (mkD w' (d_regs d)) g L (set_edns_f w' (Some (mkEdns (e_udp e) ((v / 16) mod 256))))); auto.
+      * pose proof (a_n _ _ _ H) as []. simpl in *. constructor; simpl; auto.
+        unfold resv in *. simpl in *. rewrite He, Ee in i_av. exact i_av.
+      * intros t Et. apply (a_ts _ _ _ H). exact Et.
+    + apply (LInv_fields (mkD w' (d_regs d)) y A L); auto.
+      destruct H' as [_ HF']. eapply FLay_fields; eauto. simpl. rewrite He, Ee. reflexivity.
+  - (* set_limit *)
+    destruct (set_limit_ok l (d_w d) Hn) as [nl [av E]]. rewrite E. simpl. exists L, y. split.
+    + apply (AInv_fields d g L); auto. eapply set_limit_inv; eauto. apply (a_ts _ _ _ Hi).
+    + apply (LInv_fields d y A L); auto. eapply FLay_fields; eauto.
+  - (* set_mode *)
+    exists L, y. split.
+    + apply (AInv_fields d g L); auto. destruct Hn. constructor; auto. apply (a_ts _ _ _ Hi).
+    + split; [exact HP|]. destruct HF. constructor; simpl; auto.
+  - (* set_edns *)
+    pose proof (step_good_all d (OSetEdns udp) Hn) as G. cbn [step] in G.
+    destruct (set_edns udp (d_w d)) as [[[] w']|[e w']|] eqn:E; simpl in G |- *.
+    + exists L, y. unfold set_edns in E. destruct (w_edns (d_w d)) eqn:Ee; [discriminate|].
+      destruct (w_avail (d_w d) <? w_cursor (d_w d) + opt_record_size); [discriminate|].
+      destruct (checked_add16 (w_ar (d_w d)) 1) as [ar|] eqn:Ea; [|discriminate]. inversion E; subst w'.
+      apply checked_add16_some in Ea.
+      split; [apply (AInv_fields d g L); auto; apply (a_ts _ _ _ Hi)|].
+      apply (LInv_fields d y A L); auto. destruct HF as [Fq Fr Fm Cq Ca Cn Cr Fs].
+      constructor; simpl; auto. rewrite Ea, Cr, Ee. simpl. lia.
+    + exists L, y. split; [apply AInv_obs; auto|eapply (LInv_obs d g); eauto].
+    + unfold set_edns in E. destruct (w_edns (d_w d)); [discriminate|].
+      destruct (w_avail (d_w d) <? w_cursor (d_w d) + opt_record_size); [discriminate|].
+      destruct (checked_add16 (w_ar (d_w d)) 1); discriminate.
+  - (* set_tsig *)
+    destruct Hwf as [Wa [Wk [Wt [Ws [Oa [Ot Os]]]]]].
+    pose proof (step_good_all d (OSetTsig alg key time fudge origid error stime) Hn) as G. cbn [step] in G.
+    destruct (set_tsig (nm_lower alg) (nm_lower key) time fudge origid error stime (d_w d)) as [[[] w']|[e w']|] eqn:E;
+      simpl in G |- *.
+    + exists L, y. unfold set_tsig in E. destruct (w_tsig (d_w d)) eqn:Ets; [discriminate|].
+      destruct (w_avail (d_w d) <? _); [discriminate|].
+      destruct (checked_add16 (w_ar (d_w d)) 1) as [ar|] eqn:Ea; [|discriminate]. inversion E; subst w'.
+      apply checked_add16_some in Ea.
+      split.
+      * apply (AInv_fields d g L); auto. simpl. intros t Et. inversion Et; subst t.
+        unfold tsig_wf; simpl. split; [apply wf_name_lower; auto|]. split; [apply wf_name_lower; auto|].
+        split; auto. split; auto. split; auto. split; [apply wf_bytes_lower; auto|]. split; auto.
+      * apply (LInv_fields d y A L); auto. destruct HF as [Fq Fr Fm Cq Ca Cn Cr Fs].
+        constructor; simpl; auto. rewrite Ea, Cr, Ets. simpl. lia.
+    + exists L, y. split; [apply AInv_obs; auto|eapply (LInv_obs d g); eauto].
+    + unfold set_tsig in E. destruct (w_tsig (d_w d)); [discriminate|].
+      destruct (w_avail (d_w d) <? _); [discriminate|].
+      destruct (checked_add16 (w_ar (d_w d)) 1); discriminate.
+  - (* update_time_signed *)
+    unfold update_time_signed. destruct (w_tsig (d_w d)) as [t|] eqn:Et; simpl;
+      [|exists L, y; split; [apply AInv_eta; auto|exact HL]].
+    exists L, y. split.
+    + apply (AInv_fields d g L); auto.
+      * destruct Hn. constructor; simpl; auto. unfold resv in *. simpl. rewrite Et in i_av. exact i_av.
+      * simpl. intros t' E'. inversion E'; subst t'.
+        destruct (a_ts _ _ _ Hi t Et) as [T1 [T2 [T3 [T4 [T5 [T6 [T7 T8]]]]]]].
+        destruct Hwf as [W1 W2]. unfold tsig_wf; simpl. auto 10.
+    + apply (LInv_fields d y A L); auto. eapply FLay_fields; eauto. simpl. rewrite Et. reflexivity.
+  - (* clear_rrs *) eexists. eexists. split; [apply AInv_clear; exact Hi|]. eapply LInv_clear; eauto.
+  - (* template *)
+    destruct (retemplate_ok newbuf (d_w d) Hn) as [[lim [av E]]|E]; rewrite E; simpl;
+      [|exists L, y; split; auto].
+    assert (Hag : ragree header_size (w_cursor (d_w d)) (length (w_buf (d_w d))) (w_buf (d_w d))
+                    (firstn (w_cursor (d_w d)) (w_buf (d_w d)) ++ skipn (w_cursor (d_w d)) newbuf)).
+    { apply agree_ragree. unfold agree.
+      rewrite firstn_app, firstn_firstn, firstn_length.
+      replace (Nat.min (w_cursor (d_w d)) (w_cursor (d_w d))) with (w_cursor (d_w d)) by lia.
+      assert (Hle : w_cursor (d_w d) <= length (w_buf (d_w d))) by (destruct Hn; lia).
+      replace (w_cursor (d_w d) - Nat.min (w_cursor (d_w d)) (length (w_buf (d_w d)))) with 0 by lia.
+      simpl. apply app_nil_r. }
+    exists L, y. split.
+    + apply AInv_move; auto. eapply retemplate_inv; eauto. apply (a_ts _ _ _ Hi).
+    + eapply (LInv_move d g); eauto.
+      * eapply retemplate_inv; eauto.
+      * eapply FLay_fields; eauto.
+  - (* template subsequent *) exists L, y. auto.
+  - (* get *) destruct (getters_ok (d_w d) Hn) as [l ->]. simpl. exists L, y. auto.
+Qed.
